@@ -1418,9 +1418,10 @@ void tNMEA2000::SetHeartbeatIntervalAndOffset(uint32_t interval, uint32_t offset
       if ( devInterval<1000 ) devInterval=1000;
 
       bool changed=( Devices[i].HeartbeatScheduler.GetPeriod()!=devInterval || Devices[i].HeartbeatScheduler.GetOffset()!=devOffset ); 
-      if ( changed ) {
+      // A scheduler disabled with interval 0 keeps its period and offset: start it again also when the values are the same.
+      if ( changed || Devices[i].HeartbeatScheduler.IsDisabled() ) {
         Devices[i].HeartbeatScheduler.SetPeriodAndOffset(devInterval,devOffset);
-        DeviceInformationChanged=true;
+        if ( changed ) DeviceInformationChanged=true;
       }
     }
   }
